@@ -4,6 +4,7 @@ Model: DTML/VarPipe.lean (`render`, stages, `TaintedString` mark as a Bool).
 -/
 import DTML.VarPipe
 import DTML.Props.C03
+import DTML.Lemmas.Taint
 set_option linter.unusedVariables false
 namespace DTML.Props.C04
 open DTML.Quote DTML.VarPipe
@@ -787,5 +788,186 @@ example : render { upper := id, lower := id, capitalize := id, urlQuote := id, u
                    urlUnquote := id, urlUnquotePlus := id }
     { written := ["upper", "sql_quote", "thousands_commas"], size := some "4".toList }
     (some (.str "<b>1234567".toList true)) = some (.ok "&lt;b&gt;1...".toList) := by decide
+
+/-! #### the taint bookkeeping of DT_Var, translated from the source on every run (DTML/GenTaint.lean, harness/trans_taint.py)
+
+`gen_*_is_spec`: the translation of the statements of the source = a hand-written specification, for *every* behaviour of
+what the statements call (`Prims`, `call`); `*_is_model`: at the primitives of the model that is the stage function of
+`VarPipe` the theorems above are stated about (`retaint`, `finishStage`, `cfmtStage`, `applyMod` / `applyMods`, `fmtStage`). -/
+section Translated
+open DTML.GenTaint DTML.Lemmas.Taint
+
+/-- `_retaint` as translated = `VarPipe.retaint` -/
+theorem gen_retaint_is_model (orig : Val) (r : Text) :
+    retaintGen orig (.str r false) = retaint r (isTainted orig) := by
+  unfold retaintGen retaint inVal taint hasLt
+  cases h : (isTainted orig && (ustr (Val.str r false)).contains '<') <;> simp_all [ustr]
+
+theorem gen_final_quote_is_model (s : Text) (t : Bool) :
+    ustr (finalQuoteGen (.str s t)) = if t then escape s else s := by
+  cases t <;> simp [finalQuoteGen, isTainted, quoted, ustr]
+
+theorem gen_finish_is_model (sp : Spec) (s : Text) (t : Bool) :
+    finishStage sp s t =
+      (match sp.size with
+       | none => (.ok (s, t) : R (Text × Bool))
+       | some sz =>
+         match parseInt sz with
+         | none => .error .valueError
+         | some n => .ok (truncate n (sp.etc.getD "...".toList) s t)).map
+        (fun (p : Text × Bool) => ustr (finalQuoteGen (.str p.1 p.2))) := by
+  unfold finishStage
+  cases sp.size with
+  | none => simp [Except.map, gen_final_quote_is_model]
+  | some sz => cases h : parseInt sz <;> simp [h, Except.map, gen_final_quote_is_model]
+
+theorem gen_cfmt_is_spec (P : Prims) (cfmt : Text) (v : Val) : cfmtGen P cfmt v = cfmtSpec P cfmt v := by
+  unfold cfmtGen cfmtSpec
+  rw [bindM_pure]
+  by_cases hc : cfmt = ['s']
+  · subst hc
+    cases h : isTainted v <;> simp [bindM, pureM]
+  · have : (cfmt == "s".toList) = false := by simpa using hc
+    simp only [this, if_neg hc]
+    cases hp : P.pctC cfmt v with
+    | none => simp [bindM]
+    | some r =>
+      cases r with
+      | error e => simp [bindM]
+      | ok r =>
+        cases h : isTainted v <;> cases h2 : hasLt (ustr r) <;> simp_all [bindM, pureM, inVal, hasLt, taint]
+
+theorem cfmt_spec_is_model (cfmt : Text) (v : Val) (x : Ext) :
+    cfmtStage cfmt v = (cfmtSpec (modelPrims x) cfmt v).map (fun r => r.map pairOf) := by
+  unfold cfmtStage cfmtSpec modelPrims modelPctC
+  by_cases hc : cfmt = ['s']
+  · subst hc
+    cases v with
+    | str s t => cases t <;> simp [isTainted, strOf, pairOf, ustr, Except.map]
+    | _ => simp [isTainted, strOf, pairOf, ustr, Except.map]
+  · simp only [if_neg hc]
+    by_cases hd : cfmt = ['d']
+    · subst hd
+      cases v with
+      | str s t => cases t <;> simp [pairOf, Except.map]
+      | _ => simp [isTainted, pairOf, ustr, Except.map]
+    · simp [hd]
+
+theorem gen_cfmt_is_model (cfmt : Text) (v : Val) (x : Ext) :
+    cfmtStage cfmt v = (cfmtGen (modelPrims x) cfmt v).map (fun r => r.map pairOf) := by
+  rw [gen_cfmt_is_spec]; exact cfmt_spec_is_model cfmt v x
+
+theorem gen_mod_step_is_spec (call : String → Val → Val) (f : String) (v : Val) :
+    modStepGen call f v = modStepSpec call f v := by
+  unfold modStepGen modStepSpec
+  by_cases h : f = "html_quote" <;> cases h2 : isTainted v <;> simp [h]
+
+theorem gen_mod_step_is_model (x : Ext) (m : String) (s : Text) (t : Bool) :
+    modStepGen (modelCall x) m (.str s t) = valOf (applyMod x m s t) := by
+  rw [gen_mod_step_is_spec]
+  unfold modStepSpec modelCall
+  by_cases h : m = "html_quote"
+  · subst h
+    cases t <;> simp [isTainted, applyMod, valOf, ustr]
+  · simp [h, pairOf]
+
+theorem gen_mod_loop_is_model (x : Ext) (ms : List String) (s : Text) (t : Bool) :
+    modLoopGen (modelCall x) ms (.str s t) = valOf (applyMods x ms s t) := by
+  unfold modLoopGen applyMods
+  induction ms generalizing s t with
+  | nil => rfl
+  | cons m ms ih =>
+    simp only [List.foldl_cons]
+    rw [gen_mod_step_is_model]
+    exact ih _ _
+
+theorem gen_fmt_is_spec (P : Prims) (fmt : Text) (v : Val) : fmtGen P fmt v = fmtSpec P fmt v := by
+  have e0 : "".toList = ([] : List Char) := rfl
+  unfold fmtGen fmtSpec
+  rw [e0]
+  generalize "html-quote".toList = q
+  simp only [bindM_pure]
+  by_cases h1 : P.hasAttr v fmt = true
+  · simp only [h1, if_true]
+  · simp only [h1, if_false, Bool.false_eq_true]
+    by_cases h2 : P.isSpecial fmt = true
+    · simp only [h2, if_true]
+      by_cases h3 : fmt = q
+      · cases h4 : isTainted v <;> simp [h3, pureM]
+      · have : (fmt == q) = false := by simpa using h3
+        simp [this, h3]
+    · simp only [h2, if_false, Bool.false_eq_true]
+      by_cases h3 : fmt = []
+      · subst h3; simp [pureM, plain]
+      · have : (fmt == ([] : List Char)) = false := by simpa using h3
+        simp only [this, if_neg h3, Bool.false_eq_true, if_false]
+        cases hp : P.pct fmt v with
+        | none => simp [bindM]
+        | some r =>
+          cases r with
+          | error e => simp [bindM]
+          | ok r => cases h : isTainted v <;> simp [bindM, pureM, taint]
+
+theorem fmt_spec_is_model (x : Ext) (fmt : Text) (v : Val) : fmtSpec (modelPrims x) fmt v = fmtStage x fmt v := by
+  unfold fmtSpec fmtStage modelPrims
+  simp only
+  by_cases h1 : hasMethod v (String.ofList fmt) = true
+  · simp only [h1, if_true, modelCallMethod]
+    cases v <;> rfl
+  · simp only [h1, if_false, Bool.false_eq_true]
+    by_cases h2 : Gen.specialFormats.contains (String.ofList fmt) = true
+    · simp only [h2, if_true]
+      by_cases h3 : String.ofList fmt = "html-quote"
+      · have h3' := (ofList_eq_iff _ _).mp h3
+        simp only [h3', true_and, modelSpecial]
+        cases v with
+        | str s t => cases t <;> simp [isTainted]
+        | _ => simp [isTainted]
+      · have h3' : ¬ fmt = "html-quote".toList := fun h => h3 ((ofList_eq_iff _ _).mpr h)
+        simp only [h3, h3', false_and, if_false, modelSpecial]
+        cases v with
+        | str s t => cases t <;> rfl
+        | _ => rfl
+    · simp only [h2, if_false, Bool.false_eq_true]
+      by_cases h3 : fmt = []
+      · simp [h3]
+      · simp only [if_neg h3]
+        cases hp : pyFormat fmt v with
+        | none => simp
+        | some r =>
+          cases r with
+          | error e => simp [Except.map]
+          | ok r =>
+            cases v with
+            | str s t => cases t <;> simp [Except.map, ustr, isTainted]
+            | _ => simp [Except.map, isTainted]
+
+theorem gen_fmt_is_model (x : Ext) (fmt : Text) (v : Val) : fmtGen (modelPrims x) fmt v = fmtStage x fmt v := by
+  rw [gen_fmt_is_spec]; exact fmt_spec_is_model x fmt v
+
+private theorem pairOf_fst (r : Val) : (pairOf r).1 = ustr r := by cases r <;> rfl
+
+/-- whatever the format code of the tag and whatever `%` does with it: a TaintedString leaves the C-style format stage of
+the source (as translated) marked, or without a `<` -/
+theorem gen_cfmt_safe_any_code (P : Prims) (cfmt s : Text) (r : Val)
+    (h : cfmtGen P cfmt (.str s true) = some (.ok r)) : ('<' ∈ (pairOf r).1 → (pairOf r).2 = true) := by
+  rw [gen_cfmt_is_spec] at h
+  unfold cfmtSpec at h
+  split at h
+  · simp only [isTainted, if_true, Option.some.injEq, Except.ok.injEq] at h
+    subst h; intro _; rfl
+  · split at h
+    · cases h
+    · cases h
+    · rename_i r' _
+      simp only [isTainted, Bool.true_and, Option.some.injEq, Except.ok.injEq] at h
+      cases hh : hasLt (ustr r')
+      · rw [hh] at h; simp only [Bool.false_eq_true, if_false] at h; subst h
+        intro hm; rw [pairOf_fst] at hm
+        have : hasLt (ustr r') = true := by simpa [hasLt] using hm
+        rw [hh] at this; cases this
+      · rw [hh] at h; simp only [if_true] at h; subst h; intro _; rfl
+
+end Translated
 
 end DTML.Props.C04
